@@ -233,6 +233,10 @@ impl ProbeSpace {
                 "/A/b".into(),
                 "/a/b/B".into(),
                 "/a?x=2".into(),
+                // two marker rules sharing the PLAIN literal prefix "/A/" (an inner tree node whose prefix has no group)
+                "/A/x-b".into(),
+                "/a/x-b".into(),
+                "/A/y-b".into(),
             ],
         }
     }
@@ -742,6 +746,22 @@ pub fn deviations() -> Vec<(usize, String, Box<dyn Fn(&mut RuleSpec) + Send + Sy
         "path=/A/@m(upper-case literal)",
         Box::new(|r| {
             r.path = "/A/@m".into();
+            r.markers.push(("m".into(), "[a-z]+".into()));
+        }),
+    );
+    add(
+        6,
+        "path=/A/x-@m (plain upper-case prefix shared with /A/y-@m)",
+        Box::new(|r| {
+            r.path = "/A/x-@m".into();
+            r.markers.push(("m".into(), "[a-z]+".into()));
+        }),
+    );
+    add(
+        6,
+        "path=/A/y-@m (plain upper-case prefix shared with /A/x-@m)",
+        Box::new(|r| {
+            r.path = "/A/y-@m".into();
             r.markers.push(("m".into(), "[a-z]+".into()));
         }),
     );
